@@ -192,7 +192,19 @@ def analyse(facts, tier):
             if 'fc' in y and y.get('k') == 'FloatingLiteral':
                 k = y['fc']
     okk = k is not None and abs(k - math.log(2) / 12) < 1e-8 and any(short(callee_name(x)) == 'exp' for b, j, st in cf.cfg.returns() for x in calls_in(st['s']))
-    obls.append(Obl('C10.R3', cf.name, 'semitone exponent = ln 2 / 12', cf.loc, 'discharged' if okk else 'finding', why='exp(%r * tone)' % k if okk else 'exponent constant %r is not ln2/12 = %r' % (k, math.log(2) / 12)))
+    # every floating constant of the function is the exponent ln2/12, an integer-valued bound, or - for a tabulated variant - the
+    # value 2^(i/12) of a semitone (a table entry that is none of these detunes one pitch class)
+    stray = []
+    for y in walk(cf.tree):
+        if isinstance(y, dict) and y.get('k') == 'FloatingLiteral' and 'fc' in y:
+            v = y['fc']
+            if abs(v - math.log(2) / 12) < 1e-8 or abs(v - round(v)) < 1e-12 and abs(v) != 1.0 or any(abs(v - 2.0 ** (i / 12.0)) < 5e-8 for i in range(13)):
+                continue
+            stray.append(v)
+    if stray:
+        okk = False
+        k = stray[0]
+    obls.append(Obl('C10.R3', cf.name, 'semitone exponent = ln 2 / 12', cf.loc, 'discharged' if okk else 'finding', why='exp(%r * tone)' % k if okk else 'the constant %r in the frequency function is neither ln2/12 = %r nor a semitone ratio 2^(i/12): every pitch that uses it is out of tune' % (k, math.log(2) / 12)))
     fam = facts.enum_names.get('OPNFamily') or {}
     fams = {n_: v for n_, v in fam.items() if n_.startswith('OPNChip_') and n_ not in ('OPNChip_Count',)}
     clocks = {}
@@ -328,6 +340,7 @@ def analyse(facts, tier):
     obls += r6_glide(facts)
     obls += r7_sostenuto(facts)
     obls += r8_no_narrowing(facts)
+    obls += r1_update_all_total(facts)
     return obls
 
 
@@ -442,4 +455,25 @@ def r8_no_narrowing(facts):
                                    'the copy narrows %s to %s: values outside the destination range wrap (a note offset of -129 becomes +127 and the note is programmed octaves away)' % (rt.get('s'), lt.get('s'))))
     if n < 20:
         raise build.AnalysisBroken('C10.R8: only %d field copies found in the instrument converters' % n)
+    return out
+
+
+def r1_update_all_total(facts):
+    """realTime_PitchBend re-pitches through noteUpdateAll(channel, Upd_Pitch).  "Every sounding note of the channel" holds only if
+    noteUpdateAll hands every active note to noteUpdate: the call in its loop is unconditional (a filter there - on the kind of
+    update, on glide state - leaves some notes at their old pitch)."""
+    out = []
+    fn = facts.fn('OPNMIDIplay::noteUpdateAll')
+    n = 0
+    for b, j, st in fn.cfg.stmts():
+        for x in calls_in(st['s']):
+            if short(callee_name(x)) == 'noteUpdate':
+                n += 1
+                gf = guard_facts(fn, b, st, loops=False)
+                ok = not gf
+                out.append(Obl('C10.R1', fn.name, 'every active note is updated', st['loc'], 'discharged' if ok else 'finding',
+                               why='noteUpdate is called for each note of the list without a filter' if ok else
+                               'noteUpdate is skipped under [%s]: a pitch-bend (Upd_Pitch) does not reach those notes, they stay at their old pitch' % ' ; '.join(fact_str(f) for f in gf)[:100]))
+    if n < 1:
+        raise build.AnalysisBroken('C10.R1: call of noteUpdate in noteUpdateAll not found')
     return out
